@@ -1,12 +1,15 @@
 (* C16 property theorems: statements + `exact lemma` only. *)
-From CJ Require Import Common.Base C16.Model C16.ProofsRead.
+From CJ Require Import Common.Base C16.Model C16.ProofsRead C16.ProofsHb C16.ProofsFc C16.ProofsReg C16.ProofsMat.
 
-(* (i) SCTPConn.Read: for every message script whose messages fit the maximum
-   message size, every sequence of read-buffer sizes (0, 1, ..., beyond the
-   maximum message size) and either end-of-stream behaviour, the bytes and
-   errors handed to the caller, followed by what the buffer still owes and what
-   the stream has not delivered yet, are exactly the bytes and errors of the
-   script, in order. *)
+(* ------------------------------------------------------------------ *)
+(* (i) SCTPConn.Read                                                   *)
+(* ------------------------------------------------------------------ *)
+
+(* For every message script whose messages fit the maximum message size, every
+   sequence of read-buffer sizes (0, 1, ..., beyond the maximum message size)
+   and either end-of-stream behaviour: the bytes and errors handed to the
+   caller, followed by what the buffer still owes and what the stream has not
+   delivered yet, are exactly the bytes and errors of the script, in order. *)
 Theorem C16_read_lossless :
   forall mx eos msgs sizes res st' rest,
     fits mx msgs -> reads mx eos sizes rinit msgs = (res, st', rest) ->
@@ -21,3 +24,227 @@ Theorem C16_read_concat :
               = firstn k (concat (map fst msgs)).
 Proof. exact read_concat_bytes. Qed.
 Print Assumptions C16_read_concat.
+
+(* positive read sizes drain the stream: nothing is withheld *)
+Theorem C16_read_complete :
+  forall mx eos sizes st s res st' rest,
+    fits mx s -> rwf st -> Forall (fun n => (0 < n)%nat) sizes ->
+    (remaining st s <= length sizes)%nat ->
+    reads mx eos sizes st s = (res, st', rest) -> pend st' = [] /\ rest = [].
+Proof. exact reads_complete. Qed.
+Print Assumptions C16_read_complete.
+
+(* an error is reported only when nothing delivered with it stays behind, and
+   the read that hands out the last buffered byte is the one that reports it *)
+Theorem C16_read_error_timing :
+  forall mx eos st s n st1 s1 o e,
+    rwf st -> sctp_read mx eos st s n = (st1, s1, o, e) ->
+    (e <> None -> pend st1 = []) /\
+    (roff st <> length (rbuf st) -> roff st1 = length (rbuf st1) -> e = rerr st) /\
+    (roff st <> length (rbuf st) -> s1 = s /\ o = firstn n (skipn (roff st) (rbuf st))).
+Proof. exact read_error_timing. Qed.
+Print Assumptions C16_read_error_timing.
+
+(* an error without data comes only from a read that itself met an empty
+   message, the end of the stream or an oversize message: never a deferred one *)
+Theorem C16_read_error_without_data :
+  forall mx eos st s n st1 s1 o x,
+    rwf st -> (0 < n)%nat -> sctp_read mx eos st s n = (st1, s1, o, Some x) -> o = [] ->
+    roff st = length (rbuf st) /\
+    (s = [] \/ exists m em r, s = (m, em) :: r /\
+        (m = [] \/ (mx < length m)%nat \/ (n < length m)%nat /\ (mx <= n)%nat)).
+Proof. exact read_error_without_data. Qed.
+Print Assumptions C16_read_error_without_data.
+
+(* ------------------------------------------------------------------ *)
+(* (ii) heartbeat server                                               *)
+(* ------------------------------------------------------------------ *)
+
+(* no message handed to SCTPConn equals the heartbeat, for every raw stream *)
+Theorem C16_hb_never_surfaces :
+  forall mx hb raw, hb <> [] -> Forall (fun m => fst m <> hb) (hb_filter mx hb raw).
+Proof. exact hb_filter_no_hb. Qed.
+Print Assumptions C16_hb_never_surfaces.
+
+(* recvLoop is the specification filter: the stream without heartbeats up to its first error *)
+Theorem C16_hb_filter_spec :
+  forall mx hb raw, fits mx raw -> hb_filter mx hb raw = delivered hb raw.
+Proof. exact hb_filter_spec. Qed.
+Print Assumptions C16_hb_filter_spec.
+
+(* the queue between recvLoop and Read, for every interleaving of loop steps,
+   reads, closes and queue-full timeouts: returned messages followed by the
+   queue are a prefix of the filtered stream; no heartbeat is ever returned *)
+Theorem C16_hb_queue_prefix :
+  forall mx hb raw ops st' os,
+    hb_run mx hb (hb_init raw) ops = (st', os) ->
+    exists F, got_msgs os ++ hq st' ++ F = hb_filter mx hb raw.
+Proof. exact hb_queue_prefix. Qed.
+Print Assumptions C16_hb_queue_prefix.
+
+Theorem C16_hb_never_surfaces_any_schedule :
+  forall mx hb raw ops st' os,
+    hb <> [] -> hb_run mx hb (hb_init raw) ops = (st', os) ->
+    Forall (fun m => fst m <> hb) (got_msgs os).
+Proof. exact hb_never_surfaces_lts. Qed.
+Print Assumptions C16_hb_never_surfaces_any_schedule.
+
+(* closed is reported only once the queue is drained, and is final *)
+Theorem C16_hb_closed_after_drain :
+  forall mx hb raw ops1 st1 os1 ops2 st2 os2,
+    hb_run mx hb (hb_init raw) (ops1 ++ [HRead]) = (st1, os1) ->
+    last os1 HNone = HErrClosed ->
+    hb_run mx hb st1 ops2 = (st2, os2) ->
+    hq st1 = [] /\ got_msgs os2 = [].
+Proof. exact hb_errclosed_after_drain. Qed.
+Print Assumptions C16_hb_closed_after_drain.
+
+(* The server side end to end.  The full statement of the property ... *)
+Definition C16_server_read_concat_full_statement : Prop :=
+  forall mx hb raw sizes res st' rest,
+    fits mx raw ->
+    server_reads mx hb sizes raw = (res, st', rest) ->
+    exists k, flat res ++ pend st' ++ flat rest =
+              flat (if has_err raw then upto_err raw else raw ++ [([], Some E_EOS)])
+              ++ repeat (EvE E_CLOSED) k.
+(* ... is refuted by a peer message equal to the heartbeat (Refuted.v, open
+   known finding); it holds whenever no message equals the heartbeat. *)
+Theorem C16_server_read_concat_partial :
+  forall mx hb raw sizes res st' rest,
+    fits mx raw -> Forall (fun m => fst m <> hb) raw ->
+    server_reads mx hb sizes raw = (res, st', rest) ->
+    exists k, flat res ++ pend st' ++ flat rest =
+              flat (if has_err raw then upto_err raw else raw ++ [([], Some E_EOS)])
+              ++ repeat (EvE E_CLOSED) k.
+Proof. exact server_read_concat. Qed.
+Print Assumptions C16_server_read_concat_partial.
+
+(* without that hypothesis: what the reader gets is the filtered stream *)
+Theorem C16_server_read_lossless :
+  forall mx hb raw sizes res st' rest,
+    server_reads mx hb sizes raw = (res, st', rest) ->
+    exists k, flat res ++ pend st' ++ flat rest
+              = flat (hb_filter mx hb raw) ++ repeat (EvE E_CLOSED) k.
+Proof. exact server_read_lossless. Qed.
+Print Assumptions C16_server_read_lossless.
+
+(* the watchdog: three loop actions (check, reset, check -- one full interval)
+   without a heartbeat close the connection, from any state *)
+Theorem C16_silent_peer_closed :
+  forall st t, no_hb t -> (3 <= length t)%nat -> wclosed (wrun st t) = true.
+Proof. exact silent_peer_closed. Qed.
+Print Assumptions C16_silent_peer_closed.
+
+(* and a peer whose heartbeats reach every sleep of the loop is never closed *)
+Theorem C16_live_peer_kept_open :
+  forall t t', live_trace (t ++ t') -> wclosed (wrun winit t) = false.
+Proof. exact live_peer_kept_open. Qed.
+Print Assumptions C16_live_peer_kept_open.
+
+(* ------------------------------------------------------------------ *)
+(* (iii) write flow control                                            *)
+(* ------------------------------------------------------------------ *)
+
+(* in every state of every run the buffered amount is at most 256 KiB + 128 KiB
+   plus the bytes that bypassed SCTPConn.Write (client heartbeats) *)
+Theorem C16_buffered_bounded :
+  forall ops, Forall (fun st => fbuf st <= 393216 + fforeign st) (fc_trace fc_init ops).
+Proof. exact buffered_bounded. Qed.
+Print Assumptions C16_buffered_bounded.
+
+Theorem C16_buffered_bounded_no_foreign :
+  forall ops, Forall (fun op => match op with FForeign _ => False | _ => True end) ops ->
+    Forall (fun st => fbuf st <= 393216) (fc_trace fc_init ops).
+Proof. exact buffered_bounded_no_foreign. Qed.
+Print Assumptions C16_buffered_bounded_no_foreign.
+
+(* ------------------------------------------------------------------ *)
+(* (iv) listener registry: any number of acceptor and connection       *)
+(*      threads, every schedule, cancellation at any step              *)
+(* ------------------------------------------------------------------ *)
+
+Theorem C16_delivery_to_matching_acceptor :
+  forall hr asecs csecs ops a c,
+    ares (acc (lrun hr asecs csecs linit ops) a) = RGot c ->
+    hr (csecs c) = hr (asecs a) /\
+    cverified (cns (lrun hr asecs csecs linit ops) c) = true /\
+    exists a0, asecs a0 = csecs c /\ apc (acc (lrun hr asecs csecs linit ops) a0) <> A0.
+Proof. exact delivery_to_matching_acceptor. Qed.
+Print Assumptions C16_delivery_to_matching_acceptor.
+
+Theorem C16_delivered_to_one :
+  forall hr asecs csecs ops a1 a2 c,
+    ares (acc (lrun hr asecs csecs linit ops) a1) = RGot c ->
+    ares (acc (lrun hr asecs csecs linit ops) a2) = RGot c -> a1 = a2.
+Proof. exact delivered_to_one. Qed.
+Print Assumptions C16_delivered_to_one.
+
+(* named hypothesis: the hello-random derivation separates secrets *)
+Theorem C16_delivery_same_secret :
+  forall hr asecs csecs ops a c,
+    (forall s1 s2, hr s1 = hr s2 -> s1 = s2) ->
+    ares (acc (lrun hr asecs csecs linit ops) a) = RGot c -> csecs c = asecs a.
+Proof. exact delivery_same_secret. Qed.
+Print Assumptions C16_delivery_same_secret.
+
+Theorem C16_cancel_leaves_nothing :
+  forall hr asecs csecs ops,
+    (forall a, holds_cert (apc (acc (lrun hr asecs csecs linit ops) a)) = false) ->
+    forall i, certs (lrun hr asecs csecs linit ops) i = None /\
+              chans (lrun hr asecs csecs linit ops) i = None.
+Proof. exact cancel_leaves_nothing. Qed.
+Print Assumptions C16_cancel_leaves_nothing.
+
+Theorem C16_registry_exact :
+  forall hr asecs csecs ops i a,
+    (certs (lrun hr asecs csecs linit ops) i = Some a <->
+       hr (asecs a) = i /\ holds_cert (apc (acc (lrun hr asecs csecs linit ops) a)) = true) /\
+    (chans (lrun hr asecs csecs linit ops) i = Some a <->
+       hr (asecs a) = i /\ holds_chan (apc (acc (lrun hr asecs csecs linit ops) a)) = true).
+Proof. exact registry_exact. Qed.
+Print Assumptions C16_registry_exact.
+
+Theorem C16_second_accept_fails :
+  forall hr asecs csecs ops a b,
+    let g := lrun hr asecs csecs linit ops in
+    hr (asecs a) = hr (asecs b) -> holds_cert (apc (acc g a)) = true -> apc (acc g b) = A0 ->
+    let g' := lstep hr asecs csecs g (LA b) in
+    certs g' = certs g /\ chans g' = chans g /\ bufs g' = bufs g /\ cns g' = cns g /\
+    (forall x, x <> b -> acc g' x = acc g x) /\
+    apc (acc g' b) = ADone /\ ares (acc g' b) = RErrDup.
+Proof. exact second_accept_fails. Qed.
+Print Assumptions C16_second_accept_fails.
+
+Theorem C16_register_channel_never_fails :
+  forall hr asecs csecs ops a, ares (acc (lrun hr asecs csecs linit ops) a) <> RErrChan.
+Proof. exact register_channel_never_fails. Qed.
+Print Assumptions C16_register_channel_never_fails.
+
+Theorem C16_unregistered_never_completes :
+  forall hr asecs csecs ops c,
+    (forall a, asecs a <> csecs c) ->
+    cverified (cns (lrun hr asecs csecs linit ops) c) = false /\
+    forall a, ares (acc (lrun hr asecs csecs linit ops) a) <> RGot c.
+Proof. exact unregistered_never_completes. Qed.
+Print Assumptions C16_unregistered_never_completes.
+
+(* ------------------------------------------------------------------ *)
+(* (v) key material                                                    *)
+(* ------------------------------------------------------------------ *)
+
+Theorem C16_same_secret_same_material :
+  forall hkdf s1 s2, s1 = s2 -> material hkdf s1 = material hkdf s2.
+Proof. exact same_secret_same_material. Qed.
+Print Assumptions C16_same_secret_same_material.
+
+Theorem C16_different_secret_different_route :
+  forall hkdf, hkdf_hello_injective hkdf ->
+    forall s1 s2, s1 <> s2 -> hello_random hkdf s1 <> hello_random hkdf s2.
+Proof. exact different_secret_different_route. Qed.
+Print Assumptions C16_different_secret_different_route.
+
+Theorem C16_derived_key_valid :
+  forall st c r, cert_of st = Some (c, r) ->
+    1 <= cm_d c < p256_order /\ cm_serial c < serial_max /\ r = skipn 65 st.
+Proof. exact cert_of_valid. Qed.
+Print Assumptions C16_derived_key_valid.
